@@ -94,6 +94,21 @@ class SSeries(Model):
             out = SSeries(self.n, lambda i: SBool(z3.And(to_bool_term(a(i)), to_bool_term(b(i))), 'npbool'), 'bool')
             out.factors = (self, other)
             return out
+        if op == 'Mult' and isinstance(other, SSeries) and 'bool' in (self.dtype, other.dtype) and {self.dtype, other.dtype} <= {'bool', 'float', 'int'} \
+                and type(self) is SSeries and type(other) is SSeries:
+            # bool Series * numeric Series (same rows): the number where the flag is set, 0 elsewhere -- and NaN stays NaN (0 * NaN)
+            from .values import to_real_parts, is_intlike, to_int_term, SFloat, SInt
+            m, v = (self.at, other.at) if self.dtype == 'bool' else (other.at, self.at)
+            num_dtype = other.dtype if self.dtype == 'bool' else self.dtype
+
+            def f(i):
+                x = v(i)
+                c = to_bool_term(m(i))
+                if num_dtype == 'int' and is_intlike(x):
+                    return SInt(z3.If(c, to_int_term(x), 0), 'npint')
+                n_, r_ = to_real_parts(x)
+                return SFloat(z3.If(c, r_, 0), n_, 'npfloat')
+            return SSeries(self.n, f, num_dtype)
         raise Unsupported(f'Series binop {op}')
 
     def sym_compare(self, ctx, op, other, reflected):
